@@ -48,7 +48,7 @@ def cases(draw, tier):
     case.update({'detector': draw(st.sampled_from(DETECTORS)), 't1': draw(st.sampled_from([0.0, 1e-3, 0.01, 0.05])),
                  'corner_t': draw(st.sampled_from([0.1, 0.33, 0.5, 0.9])),
                  'linkage': draw(st.sampled_from(LINKS)), 'cluster_t': draw(st.sampled_from([0.01, 0.05, 0.1, 0.3])),
-                 'mode': draw(st.sampled_from(MODES))})
+                 'mode': draw(st.sampled_from(MODES)), 'int_points': draw(st.booleans())})
     return case
 
 
@@ -56,6 +56,9 @@ def oracle(case, rec):
     L = lib.lib()
     pp, kr = L.postprocessing, L.knee_ranking
     p = lib.pts_of(case)
+    if case.get('int_points') and np.all(p == np.floor(p)) and float(np.max(np.abs(p))) < 2 ** 30:
+        p = p.astype(np.int64)          # an integer-typed curve is the same curve
+        rec.tag('points:int64')
     n = len(p)
     bound = 4 * n + 16
     rec.tag('family:' + case['family'], 'simplifier:' + case['simplifier'], 'detector:' + case['detector'],
